@@ -176,6 +176,10 @@ func c01(p *core.Program, r *core.Report) {
 				if !strings.HasSuffix(path, ".stride") || base == st.Addr {
 					continue
 				}
+				// only the stride of a geometry (a field of geom0), not any field that happens to be called stride
+				if fa, isFA := st.Addr.(*ssa.FieldAddr); !isFA || namedTypeName(fa.X.Type().Underlying().(*types.Pointer).Elem()) != "geom0" {
+					continue
+				}
 				prefix := strings.TrimSuffix(path, ".stride")
 				key := short(fn) + "/store-stride"
 				// the layout stored to the same base
@@ -212,7 +216,7 @@ func c01(p *core.Program, r *core.Report) {
 
 	// ---- rule 4: ends bookkeeping uses the post-append length
 	const r4 = "ends-post-append"
-	r.Rule(r4, "every value appended to an ends slice in package geom is len(F) of the flat array, and no growth of that flat array (append / deflate) can follow it within the same loop iteration: the recorded end is the length after the part was added", 5)
+	r.Rule(r4, "every value appended to an ends slice in package geom is len(F) of the flat array, and no growth of that flat array (append / deflate) can follow it within the same loop iteration: the recorded end is the length after the part was added", 3)
 	isGrowth := func(in ssa.Instruction) bool {
 		c, ok := in.(*ssa.Call)
 		if !ok {
@@ -399,18 +403,16 @@ func c02(p *core.Program, r *core.Report) {
 	// ---- rule 1: Push is guarded and atomic on failure
 	const r1 = "push-guarded-atomic"
 	r.Rule(r1, "in each of the 5 Push methods: (a) no instruction that writes receiver memory (store to a receiver field, append onto a receiver slice) can be followed on any path by a return of a non-nil error; (b) an ErrLayoutMismatch return exists on the fail edge of a comparison of the part's layout with the receiver's; (c) for the four typed Push methods every receiver write is unreachable once the pass edge of that comparison is deleted", 5)
-	for _, tn := range []string{"Polygon", "MultiPoint", "MultiLineString", "MultiPolygon", "GeometryCollection"} {
-		fn := mustFn(p, r, r1, "", "(*"+tn+").Push")
-		if fn == nil {
-			continue
-		}
-		recv := fn.Params[0]
+	// analysePush checks one function that writes the receiver recv: no write before an error return, an
+	// ErrLayoutMismatch return, every write behind the comparison of recv's layout with a layout from elsewhere.
+	analysePush := func(fn *ssa.Function, recvP *ssa.Parameter, typed bool) (string, int) {
+		var recv ssa.Value = recvP
 		var writes []ssa.Instruction
 		for _, b := range fn.Blocks {
 			for _, in := range b.Instrs {
 				switch x := in.(type) {
 				case *ssa.Store:
-					if rootedAtParam(x.Addr, recv) && x.Addr != ssa.Value(recv) {
+					if rootedAtParam(x.Addr, recvP) && x.Addr != recv {
 						writes = append(writes, in)
 					}
 				case *ssa.Call:
@@ -436,7 +438,7 @@ func c02(p *core.Program, r *core.Report) {
 		}
 		bad := ""
 		if len(writes) == 0 {
-			bad = "Push no longer writes its receiver"
+			return "no-writes", 0
 		}
 		for _, w := range writes {
 			for _, e := range errRets {
@@ -448,20 +450,22 @@ func c02(p *core.Program, r *core.Report) {
 		if bad == "" && !mismatchRet {
 			bad = "no path returns ErrLayoutMismatch"
 		}
-		// (c) pass-edge deletion for the typed pushes
-		if bad == "" && tn != "GeometryCollection" {
-			blocked := eng.EdgeSet{}
-			for _, b := range fn.Blocks {
-				cmp, ok := eng.EdgeCmp(b, 0)
-				if !ok || cmp.Op != token.NEQ {
-					continue
-				}
-				bx, px, okx := fieldLoad(cmp.X)
-				by, py, oky := fieldLoad(cmp.Y)
-				if okx && oky && strings.HasSuffix(px, ".layout") && strings.HasSuffix(py, ".layout") && bx != by && (bx == recv || by == recv) {
-					blocked[[2]int{b.Index, 1}] = true
-				}
+		// (c) pass-edge deletion for the typed pushes: the edges on which recv.layout == <a layout from elsewhere>
+		if bad == "" && typed {
+			isRecvLayout := func(v ssa.Value) bool {
+				b, pth, ok := fieldLoad(v)
+				return ok && b == recv && strings.HasSuffix(pth, ".layout")
 			}
+			isOtherLayout := func(v ssa.Value) bool {
+				if namedTypeQual(v.Type()) != mod+".Layout" || isRecvLayout(v) {
+					return false
+				}
+				if _, isC := v.(*ssa.Const); isC {
+					return false
+				}
+				return true
+			}
+			blocked := eqPassEdges(fn, isRecvLayout, isOtherLayout)
 			if len(blocked) == 0 {
 				bad = "no comparison of the part's layout with the receiver's layout"
 			} else {
@@ -473,7 +477,53 @@ func c02(p *core.Program, r *core.Report) {
 				}
 			}
 		}
-		r.Check(bad == "", r1, short(fn), p.Pos(fn.Pos()), true, fmt.Sprintf("%d receiver writes, all after the layout check; error paths are write-free", len(writes)), bad)
+		return bad, len(writes)
+	}
+	for _, tn := range []string{"Polygon", "MultiPoint", "MultiLineString", "MultiPolygon", "GeometryCollection"} {
+		fn := mustFn(p, r, r1, "", "(*"+tn+").Push")
+		if fn == nil {
+			continue
+		}
+		typed := tn != "GeometryCollection"
+		bad, nw := analysePush(fn, fn.Params[0], typed)
+		where := short(fn)
+		if bad == "no-writes" {
+			// the body was moved into a helper of the package that receives (part of) the receiver: Push must return
+			// the helper's error and hand it the part's layout; the helper is then held to the same rule
+			bad = "Push no longer writes its receiver"
+			for _, c := range eng.Calls(fn) {
+				call, ok := c.(*ssa.Call)
+				if !ok {
+					continue
+				}
+				h := call.Call.StaticCallee()
+				if h == nil || h.Pkg != fn.Pkg || len(h.Blocks) == 0 || len(call.Call.Args) == 0 || !rootedAtParam(call.Call.Args[0], fn.Params[0]) {
+					continue
+				}
+				returned := false
+				for _, rf := range eng.Referrers(call) {
+					if _, isRet := rf.(*ssa.Return); isRet {
+						returned = true
+					}
+				}
+				partLayout := false
+				for _, a := range call.Call.Args[1:] {
+					if b, pth, ok := fieldLoad(a); ok && strings.HasSuffix(pth, ".layout") && len(fn.Params) > 1 && b == ssa.Value(fn.Params[1]) {
+						partLayout = true
+					}
+				}
+				if !returned || (typed && !partLayout) {
+					bad = fmt.Sprintf("Push delegates to %s but does not return its error or does not hand it the part's layout", short(h))
+					continue
+				}
+				hb, hn := analysePush(h, h.Params[0], typed)
+				if hb == "no-writes" {
+					continue
+				}
+				bad, nw, where = hb, hn, short(fn)+" via "+short(h)
+			}
+		}
+		r.Check(bad == "", r1, short(fn), p.Pos(fn.Pos()), true, fmt.Sprintf("%d receiver writes (%s), all after the layout check; error paths are write-free", nw, where), bad)
 	}
 
 	// ---- rule 2: Reverse writes ordinates only
